@@ -163,3 +163,15 @@ claim("C16",
       "EMF has no dimension parser (fallback, as the anchor states); suffix/MIME detection is checked differentially only.",
       "Rocq proof (byte arithmetic by lia, scanner step lemmas) + differential check on picture destinations",
       "DESIGN.md section 6 C16")
+claim("C17",
+      "Theorems (Coq, unbounded over files of rtflite's line shape): assemble's output is the first file without its final "
+      "line, then per later input a \\page line and that input's lines after its font table, then the last closing brace — "
+      "every body exactly once, in order; the start index is just after the font-table closing line; a single input is "
+      "reproduced unchanged; an empty list writes nothing. Against the implementation: the model's output must equal the "
+      "assembled file character by character; the assembled file must be wf_rtf; its parsed items must equal the "
+      "concatenation of the inputs' parsed items with one \\page between inputs; the restated geometries must be the inputs' "
+      "own; empty list and missing input are exercised.",
+      "Token-level well-formedness of the concatenation is evaluated per case, not proved (lexer compositionality); inputs "
+      "whose text contains the word 'fcharset' are outside the quantifier.",
+      "Rocq proof (list arithmetic on lines) + exact-output differential check + parse-back of assembled pages",
+      "DESIGN.md section 6 C17")
